@@ -139,6 +139,35 @@ def sigOf (kind name : String) : Option (List ArgTy × List String) :=
   (MJ.Gen.undefBuiltinSigs.find? (fun r => r.1 == kind && r.2.1 == name)).map
     (fun r => (r.2.2.1.map (fun p => ArgTy.ofParts p.1 p.2), r.2.2.2.1))
 
+/-- the same for what minijinja-contrib registers (`add_to_environment`) -/
+def contribSigOf (kind name : String) : Option (List ArgTy × List String) :=
+  (MJ.Gen.undefContribSigs.find? (fun r => r.1 == kind && r.2.1 == name)).map
+    (fun r => (r.2.2.1.map (fun p => ArgTy.ofParts p.1 p.2), r.2.2.2.1))
+
+/-- can the owned conversion of an element of a `Vec<T>` consult the undefined behaviour? -/
+def ArgTy.consultsOwned : ArgTy → Bool
+  | .base n => ((argTypeCode n).getD (0, 0)).2 = 1
+  | _ => false
+
+/-- can converting an argument to `t` consult the undefined behaviour at all?  (`MJ.Undef.asks_nil_of_not_consults`:
+    if not, the conversion asks nothing whatever the value; `consults_witness`: if so, there is a value for
+    which it asks) -/
+def ArgTy.consults : ArgTy → Bool
+  | .base n => ((argTypeCode n).getD (0, 0)).1 = 1
+  | .opt t => wrapperForwards "Option<T>" && t.consults
+  | .rest t => wrapperForwards "Rest<T>" && t.consults
+  | .vec t => wrapperForwards "Vec<T>" && t.consultsOwned
+
+/-- positions of the parameters of a signature whose conversion consults the mode -/
+def consultingParams (sig : List ArgTy) : List Nat := (sig.zipIdx.filter (fun p => p.1.consults)).map (fun p => p.2)
+
+/-- per row of an extracted signature table with at least one such parameter: (kind, name, positions) -/
+def consultingTable (rows : List (String × String × List (List String × String) × List String × List String)) :
+    List (String × String × List Nat) :=
+  rows.filterMap (fun r =>
+    let ps := consultingParams (r.2.2.1.map (fun p => ArgTy.ofParts p.1 p.2))
+    if ps.isEmpty then Option.none else some (r.1, r.2.1, ps))
+
 /-! ## hand models of bodies (after the conversion layer) -/
 
 def minBy (xs : List V) (gt : Bool) : V :=
@@ -184,7 +213,7 @@ abbrev Nested := String → String → List V → Option (Comp V)
 
 def optName : V → Option String
   | .undef | .silent | .none => Option.none
-  | .str s => some s
+  | .str s | .safe s => some s
   | v => some (V.display v)
 
 /-- `select_or_reject`: look the test up, `try_iter(value)`, then per item the attribute path and
@@ -218,7 +247,7 @@ def mapItems (nested : Nested) (fname : String) (fargs : List V) : List V → Co
     Comp.bind (mapItems nested fname fargs r) (fun ys => .pure (y :: ys)))
 
 def mapAttr (attr dflt : V) (x : V) : Except Err V :=
-  let sub := match attr with
+  let sub := match attr.plain with
     | .str p => getPath x p
     | a => if x.isUndefined then .error .undefinedError else
            match V.getItem x a with
@@ -270,13 +299,13 @@ def filterBodyRest (ops : Ops) (nested : Nested) (name : String) (args : List V)
       | .undef | .silent | .none => Comp.bind (Comp.chk (.assertNotUndef v.kind)) (fun _ => .pure (.int 0))
       | .bool b => .pure (.int (if b then 1 else 0))
       | .int i => .pure (.int i)
-      | .str s => match s.toInt? with
+      | .str s | .safe s => match s.toInt? with
         | some i => .pure (.int i)
         | Option.none => .fail (.unsupported "int of non-integer string")
       | _ => .fail .invalidOperation)
   | "string", [v] =>
       some (Comp.bind (Comp.chk (.assertNotUndef v.kind)) (fun _ =>
-        .pure (match v with | .str s => .str s | v => .str (V.display v))))
+        .pure (match v with | .str s => .str s | .safe s => .safe s | v => .str (V.display v))))
   | "bool", [v] => some (Comp.bind (Comp.chk (.isTrue v.kind)) (fun _ => .pure (.bool v.isTrue)))
   | "list", [v] => some (Comp.bind (tryIterItems v true) (fun xs => .pure (.seq xs)))
   | "min", [v] => some (Comp.bind (tryIterItems v true) (fun xs => .pure (minBy xs false)))
@@ -293,24 +322,29 @@ def filterBodyRest (ops : Ops) (nested : Nested) (name : String) (args : List V)
       | .ok (some x) => .pure x
       | .ok Option.none => Comp.bind (Comp.chk (.handleUndefined v.isUndefined)) (fun _ => .pure .undef))
   -- bodies that never reach the mode
-  | "upper", [v] => some (.pure (.str (asciiUpper (toStringCow v))))
-  | "lower", [v] => some (.pure (.str (asciiLower (toStringCow v))))
-  | "trim", [v] => some (.pure (.str (toStringCow v).trimAscii.toString))
+  | "upper", [v] => some (.pure (V.preserve v (asciiUpper (toStringCow v))))
+  | "lower", [v] => some (.pure (V.preserve v (asciiLower (toStringCow v))))
+  | "trim", [v] => some (.pure (V.preserve v (toStringCow v).trimAscii.toString))
+  -- `safe` (its `String` parameter has passed the conversion) and `escape` / `e` (HTML; the JSON and custom
+  -- formats of a template name are outside the model)
+  | "safe", [v] => some (.pure (.safe (toStringCow v)))
+  | "escape", [v] | "e", [v] => some (.pure (match v with | .safe s => .safe s | v => .safe (V.writeText true v)))
   | "length", [v] | "count", [v] =>
-      some (match v with
+      some (match v.plain with
       | .str s => .pure (.int s.length)
       | .seq xs | .iter xs => .pure (.int xs.length)
       | .map kvs => .pure (.int kvs.length)
       | _ => .fail .invalidOperation)
   | "first", [v] =>
-      some (match v with
+      some (match v.plain with
       | .str s => .pure ((V.chars s).head?.getD .undef)
       | .seq xs | .iter xs => .pure (xs.head?.getD .undef)
       | .map kvs => .pure ((kvs.head?.map (fun p => V.str p.1)).getD .undef)
       | _ => .fail .invalidOperation)
   | "last", [v] =>
-      some (match v with
-      | .str s => .pure ((V.chars s).getLast?.getD .undef)
+      some (match v.plain with
+      -- the last character of a safe string is safe (the first one, above, is not)
+      | .str s => .pure (((V.chars s).getLast?.map (fun c => if v.isSafe then .safe (V.display c) else c)).getD .undef)
       | .seq xs | .iter xs => .pure (xs.getLast?.getD .undef)
       | _ => .fail .invalidOperation)
   -- `join` without auto-escaping (`join_plain`; `.format(state)` is only reached when escaping)
@@ -366,7 +400,8 @@ def testBodyRest (name : String) (args : List V) : Option (Comp V) :=
   | "in", [v, o] =>
       some (Comp.bind (Comp.chk (.assertIterable o.kind)) (fun _ =>
         .pure (.bool (match V.contains o v with | .ok b => b | .error _ => false))))
-  | "string", [v] => some (.pure (.bool (match v with | .str _ => true | _ => false)))
+  | "string", [v] => some (.pure (.bool (match v with | .str _ | .safe _ => true | _ => false)))
+  | "safe", [v] | "escaped", [v] => some (.pure (.bool v.isSafe))
   | "number", [v] | "integer", [v] | "int", [v] => some (.pure (.bool (match v with | .int _ => true | _ => false)))
   | "boolean", [v] => some (.pure (.bool (match v with | .bool _ => true | _ => false)))
   | "sequence", [v] => some (.pure (.bool (match v with | .seq _ => true | _ => false)))
@@ -385,7 +420,7 @@ def convExec : ArgTy → V → Except Err Unit
       | Option.none => if v.isOpaque then .error (.unsupported "opaque argument") else .error .invalidOperation
     else if n == "&str" || n == "Arc<str>" then
       match v with
-      | .str _ => .ok ()
+      | .str _ | .safe _ => .ok ()
       | v => if v.isOpaque then .error (.unsupported "opaque argument") else .error .invalidOperation
     else if n == "ValueOrKwargs" then .ok ()
     else .error (.unsupported ("argument conversion " ++ n))
@@ -428,12 +463,12 @@ def functionBody (name : String) (args : List V) : Option (Comp V) :=
   | "dict", [v] => (match v with
       | .undef | .silent => some (.pure (.map []))
       | .map kvs => some (.pure (.map kvs))
-      | .mac .. | .loopRef _ => Option.none
+      | .mac .. | .loopRef _ | .module .. => Option.none
       | _ => some (.fail .invalidOperation))
   | "dict", [v, .kwargs kw] => (match v with
       | .undef | .silent => some (.pure (.map kw))
       | .map kvs => some (.pure (.map (kw.foldl (fun a p => V.mapInsert a p.1 p.2) kvs)))
-      | .mac .. | .loopRef _ => Option.none
+      | .mac .. | .loopRef _ | .module .. => Option.none
       | _ => some (.fail .invalidOperation))
   | _, _ => Option.none
 
